@@ -117,3 +117,6 @@ Definition dmins_take (ab : AB) (k : nat) : list (N * N) :=
   firstn k (dmins_enough ab 4 (fun l => Nat.leb k (length l))).
 Definition delta_mins_take (ab : AB) (k : nat) : list (N * N) :=
   firstn k ((0, 0) :: (1, 0) :: dmins_take ab k).
+(* a delta-min vector is usable as an arrival bound only if its last entry is positive
+   (Curve::number_arrivals divides by it) *)
+Definition usable_curve (l : list N) : option (list N) := if lastN l =? 0 then None else Some l.
